@@ -197,8 +197,10 @@ theorem step_hsel (a : Agent) (e : Ev) : HSel False a (step a e) := by
     simp only [step]
     split
     · exact HSel.refl_out _ _ _ (noReq_res _)
-    · exact HSel.thenForced (r := ((a.addRemoteCandidate c).1, (a.addRemoteCandidate c).2.1))
-        ((addRemoteCandidate_hok (ex := True) a c).1.hsel) now
+    · split
+      · exact (HOK.refl False True a).hsel
+      · exact HSel.thenForced (r := ((a.addRemoteCandidate c).1, (a.addRemoteCandidate c).2.1))
+          ((addRemoteCandidate_hok (ex := True) a c).1.hsel) now
   | start now ctl ru rp =>
     rw [step_start_eq]
     split
